@@ -4,6 +4,7 @@ CONSTANTS
   FaultKinds = {}
   SyntaxKinds = {"int-range"}
   MaxFaults = 0
+  LexicalChecked = TRUE
 INVARIANTS TraceNoCrash TraceRefusedLocated TraceEmittedClean TraceNoArtefactUnlessEmitted TraceFaultyRefused
 POSTCONDITION AllConsumed
 CHECK_DEADLOCK FALSE
